@@ -14,12 +14,9 @@ def checkPeriodConsistency_raises (du pu : DUnit) (sz : Int) : Bool :=
   if ((sz != (1 : Int))) then true else
   false
 
-/-- 3 guards of `Simulation.calculate_add` (openfisca_core/simulations/simulation.py), first match decides; `true` = raises -/
+/-- NOT TRANSLATED (statement not understood at line 237: sub_periods = period.get_subperiods(variable.definition_period)): falls back to the hand-written model's own decision -/
 def calculateAdd_raises (du pu : DUnit) (sz : Int) : Bool :=
-  if ((decide ((unitWeight du) > (unitWeight pu)))) then true else
-  if ((!((OFCore.Generated.isoformatUnits ++ OFCore.Generated.isocalendarUnits).contains (du).name))) then true else
-  if ((!((OFCore.Generated.isoformatUnits ++ OFCore.Generated.isocalendarUnits).contains (pu).name))) then true else
-  false
+  OFCore.Tie.addGuards du pu sz
 
 /-- 3 guards of `Simulation.calculate_divide` (openfisca_core/simulations/simulation.py), first match decides; `true` = raises -/
 def calculateDivide_raises (du pu : DUnit) (sz : Int) : Bool :=
@@ -44,6 +41,49 @@ def calculateDivide_denominator (pu : DUnit) : String :=
   if ((pu == DUnit.week)) then "size_in_weeks" else
   "size_in_weekdays"
 
+/-- `Period.size_in_years` (openfisca_core/periods/period_.py): 2 branches, first match decides, leaves translated idiom by idiom -/
+def period_size_in_years (p : Period) : Except String Int :=
+  if ((p.unit == DUnit.year)) then (Except.ok p.size) else
+  (Except.error "value")
+
+/-- `Period.size_in_months` (openfisca_core/periods/period_.py): 3 branches, first match decides, leaves translated idiom by idiom -/
+def period_size_in_months (p : Period) : Except String Int :=
+  if ((p.unit == DUnit.year)) then (do let a ← (Except.ok p.size); let b ← (Except.ok (12 : Int)); Except.ok (a * b)) else
+  if ((p.unit == DUnit.month)) then (Except.ok p.size) else
+  (Except.error "value")
+
+/-- `Period.size_in_days` (openfisca_core/periods/period_.py): 4 branches, first match decides, leaves translated idiom by idiom -/
+def period_size_in_days (p : Period) : Except String Int :=
+  if (([DUnit.year, DUnit.month].contains p.unit)) then p.spanDays else
+  if ((p.unit == DUnit.week)) then (do let a ← (Except.ok p.size); let b ← (Except.ok (7 : Int)); Except.ok (a * b)) else
+  if (([DUnit.day, DUnit.weekday].contains p.unit)) then (Except.ok p.size) else
+  (Except.error "value")
+
+/-- `Period.size_in_weeks` (openfisca_core/periods/period_.py): 4 branches, first match decides, leaves translated idiom by idiom -/
+def period_size_in_weeks (p : Period) : Except String Int :=
+  if ((p.unit == DUnit.year)) then (Tie.weeksAfterYears p) else
+  if ((p.unit == DUnit.month)) then (Tie.weeksAfterMonths p) else
+  if ((p.unit == DUnit.week)) then (Except.ok p.size) else
+  (Except.error "value")
+
+/-- `Period.size_in_weekdays` (openfisca_core/periods/period_.py): 5 branches, first match decides, leaves translated idiom by idiom -/
+def period_size_in_weekdays (p : Period) : Except String Int :=
+  if ((p.unit == DUnit.year)) then (do let a ← p.sizeInWeeks; let b ← (Except.ok (7 : Int)); Except.ok (a * b)) else
+  if ((OFCore.Tie.nameInfix DUnit.month p.unit)) then p.spanDays else
+  if ((p.unit == DUnit.week)) then (do let a ← (Except.ok p.size); let b ← (Except.ok (7 : Int)); Except.ok (a * b)) else
+  if (([DUnit.day, DUnit.weekday].contains p.unit)) then (Except.ok p.size) else
+  (Except.error "value")
+
+/-- `Period.get_subperiods` (openfisca_core/periods/period_.py): 7 branches, first match decides, leaves translated idiom by idiom -/
+def period_get_subperiods (p : Period) (u : DUnit) : Except String (List Period) :=
+  if ((decide ((unitWeight p.unit) < (unitWeight u)))) then (Except.error "value") else
+  if ((u == DUnit.year)) then (do let b ← p.thisYear; let n ← (Except.ok p.size); offsetsFrom b DUnit.year n) else
+  if ((u == DUnit.month)) then (do let b ← p.firstMonth; let n ← p.sizeInMonths; offsetsFrom b DUnit.month n) else
+  if ((u == DUnit.day)) then (do let b ← (Except.ok p.firstDay); let n ← p.sizeInDays; offsetsFrom b DUnit.day n) else
+  if ((u == DUnit.week)) then (do let b ← p.firstWeek; let n ← p.sizeInWeeks; offsetsFrom b DUnit.week n) else
+  if ((u == DUnit.weekday)) then (do let b ← (Except.ok p.firstWeekday); let n ← p.sizeInWeekdays; offsetsFrom b DUnit.weekday n) else
+  (Except.error "value")
+
 /-- 2 guards of `Holder._set` (openfisca_core/holders/holder.py), first match decides; `true` = raises -/
 def holderSet_raises (du pu : DUnit) (sz : Int) : Bool :=
   if (!(du == DUnit.eternity)) && (((some pu).isNone)) then true else
@@ -56,5 +96,5 @@ def holderSetInput_refuses (du pu : DUnit) (neutralized : Bool) : Bool :=
   if neutralized then false else
   false
 
-def translated : List (String × Bool) := [("checkPeriodConsistency_raises", true), ("calculateAdd_raises", true), ("calculateDivide_raises", true), ("calculateDivide_period", true), ("calculateDivide_denominator", true), ("holderSet_raises", true), ("holderSetInput_refuses", true)]
+def translated : List (String × Bool) := [("checkPeriodConsistency_raises", true), ("calculateAdd_raises", false), ("calculateDivide_raises", true), ("calculateDivide_period", true), ("calculateDivide_denominator", true), ("period_size_in_years", true), ("period_size_in_months", true), ("period_size_in_days", true), ("period_size_in_weeks", true), ("period_size_in_weekdays", true), ("period_get_subperiods", true), ("holderSet_raises", true), ("holderSetInput_refuses", true)]
 end OFCore.Generated.Guards
